@@ -395,6 +395,22 @@ func runFullTraffic(c *Ctx, scAny any) {
 	fired := c.Net.Fired["reset"] > 0 || c.Net.Fired["eof"] > 0
 	if !faulty || !fired {
 		// healthy network: every connection must have been relayed completely, both ways
+		if sc.StallMS > 0 && sc.StallDir == 0 && c.Net.Fired["stall"] > 0 {
+			// (correction of a false alarm, VERIF_SEED=77 full-traffic 355: every stream
+			// had been assigned to the connection that then stalled towards the server
+			// before a single frame got through. The server never learnt of a stream
+			// and, as documented, its inactivity timer closed the stream-less session
+			// while the stall - longer than that timer by construction - still lasted.
+			// Nothing was relayed and nothing wrong was relayed: not a verdict.)
+			none := true
+			for _, st := range r.conns {
+				none = none && st.upRead == 0 && st.appRead == 0
+			}
+			if none {
+				c.Probe("stall_before_first_frame")
+				return
+			}
+		}
 		for _, st := range r.conns {
 			if st.appRead != st.plan.Down || st.appErr != nil || !st.acked || st.upRead != st.plan.Up {
 				c.Fail("relay-data", "data:incomplete", "proxied connection %d: the proxy client received %d of %d bytes (%v), the proxy server %d of %d (acknowledged: %v) on a healthy network (transport %s, NumConn %d)", st.tag, st.appRead, st.plan.Down, st.appErr, st.upRead, st.plan.Up, st.acked, cp.Transport, cp.NumConn)
